@@ -1861,6 +1861,12 @@ class CallMixin:
                 et = t.args[0]
                 if nargs == 2:
                     v = self.expr(ks[1])
+                elif self.has_scalar(et):
+                    # vector<X>(n) with X holding scalars T: the elements are value-initialised, i.e. T() -- the documented
+                    # requirements on T (C19) promise default construction but NOT that T() is zero, so the elements are left
+                    # arbitrary: code that relies on them being zero then fails its postcondition
+                    self.emit('/* %s value-initialised elements of scalar type: arbitrary values (T() is not promised to be zero) */' % cnt)
+                    return tmp
                 else:
                     v = self.value_init(et)
                 vt = self.newtmp()
@@ -1889,6 +1895,11 @@ class CallMixin:
                     return tmp
             raise ExtractionError('%s: vector construction %s' % (self.fi.cname, ctor))
         raise ExtractionError('%s: construction of %r' % (self.fi.cname, t))
+
+    def has_scalar(self, t):
+        if t.name == 'std::array':
+            return self.has_scalar(t.args[0])
+        return t.name == 'double'
 
     def components(self, t):
         """scalar component paths of a value of type t ('' for a scalar)"""
